@@ -120,6 +120,16 @@ def run(ctx):
     ctx.rule("C20.R10", "C13.R4 for the rows handed to encode(): accessors of row views mutate nothing the view (or its sibling rows) shares, also not through a local alias")
     c13.r4_purity(ctx, rule="C20.R10")
     c13.r20_truthiness(ctx, rule="C20.R11")
+    # 'terms in the order given': the term list a learner hands to InteractionsEncoder is never rebuilt through a set (string-hash order differs from process to process)
+    from . import c01
+    ctx.rule("C20.R12", "C01.R7 for the learners: no set-typed expression is iterated into the ordered term list handed to InteractionsEncoder (de-duplication keeps the given order: dict.fromkeys)")
+    sub = type(ctx)(ctx.model, ctx.prop, ctx.tier, silent=True)
+    c01.r7_hash_order(sub)
+    for o in [o for o in sub.obs if o.file.startswith("coba/learners/")]:
+        o.rule = "C20.R12"
+        ctx.obs.append(o)
+    ctx.files |= sub.files
+    ctx.functions |= sub.functions
 
 
 def r1_key_domain(ctx):
@@ -443,6 +453,7 @@ def c13_add_method(tree):
 
 
 CONTROLS = [
+    ("LinTS de-duplicates its stripped terms through a set", "coba/learners/lints.py", M.replace_expr("LinTSLearner._initialize", "list(dict.fromkeys(filter(None, [f.replace('x', '') if isinstance(f, str) else f for f in self._X])))", "list(set(filter(None, [f.replace('x', '') if isinstance(f, str) else f for f in self._X])))"), "C20.R12"),
     ("EncodeSparse.items shrinks the shared default set", "coba/pipes/rows.py", M.replace_stmt("EncodeSparse.items", M.text_has("t2 ="), "nsp = self._nsp\nnsp -= self._row.keys()\nt2 = tuple(((k, self._enc[k]('0')) for k in nsp))"), "C20.R10"),
     ("Dense_ is falsy when what it wraps is", "coba/primitives.py", lambda tree: c13_add_method(tree), "C20.R11"),
     ("HeadDense measures its header map", "coba/pipes/rows.py", M.replace_expr("HeadDense.__len__", "len(self._row)", "len(self.headers)"), "C20.R9"),
